@@ -253,6 +253,59 @@ pub fn endpoints() -> Vec<EndpointD> {
             args: vec![arg(0, AuthCookie("PALANTIR_TOKEN="), "auth_", "token", false, true, true)],
         },
         EndpointD {
+            name: "teeBody",
+            method: Method::POST,
+            segments: vec!["u", "rec", "tee", "{}"],
+            handler: "tee_body",
+            args: vec![arg(0, Path, "id", "integer", true, true, true), {
+                let mut a = arg(1, Body, "body", "string", false, true, true);
+                a.valid = format!("{{\"secret\":\"{}\",\"wrapper\":{{\"tee\":{{\"secret\":\"{}\"}}}}}}", a.taint, a.taint);
+                a.bad = format!("{{\"secret\":5,\"{}\":1}}", a.taint);
+                a.typed = true;
+                a
+            }],
+        },
+        EndpointD {
+            name: "wrapperBody",
+            method: Method::POST,
+            segments: vec!["u", "rec", "wrapper", "{}"],
+            handler: "wrapper_body",
+            args: vec![arg(0, Path, "id", "integer", true, true, true), {
+                let mut a = arg(1, Body, "body", "string", false, true, true);
+                a.valid = format!("{{\"tee\":{{\"secret\":\"{}\"}},\"link\":{{\"wrapper\":{{\"tee\":{{\"secret\":\"{}\"}}}}}}}}", a.taint, a.taint);
+                a.bad = format!("{{\"tee\":{{\"secret\":5,\"{}\":1}}}}", a.taint);
+                a.typed = true;
+                a
+            }],
+        },
+        EndpointD {
+            name: "linkBody",
+            method: Method::POST,
+            segments: vec!["u", "rec", "link", "{}"],
+            handler: "link_body",
+            args: vec![arg(0, Path, "id", "integer", true, true, true), {
+                let mut a = arg(1, Body, "body", "string", false, true, true);
+                a.valid = format!("[{{\"wrapper\":{{\"tee\":{{\"secret\":\"{}\"}}}}}}]", a.taint);
+                a.bad = format!("[{{\"wrapper\":{{\"tee\":{{\"secret\":5,\"{}\":1}}}}}}]", a.taint);
+                a.typed = true;
+                a
+            }],
+        },
+        EndpointD {
+            name: "safeChoiceBody",
+            method: Method::POST,
+            segments: vec!["u", "safechoice", "{}"],
+            handler: "safe_choice_body",
+            args: vec![arg(0, Path, "id", "integer", true, true, true), {
+                let mut a = arg(1, Body, "body", "string", false, true, true);
+                // an unlisted variant: carries anything
+                a.valid = format!("{{\"type\":\"mystery\",\"mystery\":{{\"password\":\"{}\"}}}}", a.taint);
+                a.bad = format!("{{\"type\":\"label\",\"label\":5,\"{}\":1}}", a.taint);
+                a.typed = true;
+                a
+            }],
+        },
+        EndpointD {
             name: "safeBody",
             method: Method::POST,
             segments: vec!["u", "safebody", "{}"],
